@@ -276,8 +276,8 @@ func init() {
 			"a panic on malformed input is C11's business and counted inconclusive here",
 		},
 		Strata: []*fw.Stratum{
-			{Name: "programs", Quick: 12000, Thorough: 100000, Run: runC16Program},
-			{Name: "deep-nesting", Quick: 600, Thorough: 6000, Run: runC16Deep},
+			{Name: "programs", Quick: 36000, Thorough: 150000, Run: runC16Program},
+			{Name: "deep-nesting", Quick: 1500, Thorough: 8000, Run: runC16Deep},
 			{Name: "malformed-final-state", Quick: 300000, Thorough: 2000000, PanicInconclusive: true, Run: runC16Malformed},
 		},
 	})
